@@ -16,7 +16,7 @@ ASSUMPTIONS = ["offsets of OUTER stack entries are not asserted (the property co
                "when the reference model accepts the input / the value, whatever bisturi does is not C12's business (C04/C08/C02 own it)",
                "reference model bv/ir.py trusted for which field fails first and where it begins"]
 
-PROF = gen.profile(move=0.12, max_pkts=3, w={"int": 6, "data": 5, "bits": 2, "ref": 5, "refsel": 2, "seq": 4, "opt": 3, "em": 1},
+PROF = gen.profile(defaults=0.3, move=0.12, max_pkts=3, w={"int": 6, "data": 5, "bits": 2, "ref": 5, "refsel": 2, "seq": 4, "opt": 3, "em": 1},
                    regex_unkept=False)
 BAD_INT = ["x", None, 1.5, b"\x01"]
 BAD_DATA = [5, None, "str", 1.5]
